@@ -232,7 +232,7 @@ class StateTriggerDecorator(TriggerDecorator, ExpressionDecorator, AutoKwargsDec
 
         if check_state_expr_on_start:
             self.last_new_vars = State.notify_var_get(self.state_trig_ident, {})
-            trig_ok = await self._is_trig_ok()
+            trig_ok = await self._is_trig_ok(self.last_new_vars)
 
             if self.in_wait_until_function and trig_ok and self.state_check_now is True:
                 self.state_hold_false = None
@@ -273,22 +273,24 @@ class StateTriggerDecorator(TriggerDecorator, ExpressionDecorator, AutoKwargsDec
                     notify_type, notify_info = await asyncio.wait_for(self.notify_q.get(), effective_timeout)
                 if notify_type != "state":
                     raise RuntimeError(f"Invalid notify_type {notify_type}, {self}")
-                self.last_new_vars = notify_info[0]
-                self.last_func_args = notify_info[1]
+                new_vars, func_args = notify_info
 
-                if ident_any_values_changed(self.last_func_args, self.state_trig_ident_any):
+                if ident_any_values_changed(func_args, self.state_trig_ident_any):
                     trig_ok = True
-                elif ident_values_changed(self.last_func_args, self.state_trig_ident):
-                    trig_ok = await self._is_trig_ok()
+                elif ident_values_changed(func_args, self.state_trig_ident):
+                    trig_ok = await self._is_trig_ok(new_vars)
                 else:
-                    trig_ok = False
+                    # nothing we watch changed: no evaluation, so the hold timers are unaffected
+                    continue
+                self.last_new_vars = new_vars
+                self.last_func_args = func_args
                 await self._check_new_state(trig_ok)
             except TimeoutError:
                 await self._check_state_hold()
 
-    async def _is_trig_ok(self) -> bool:
+    async def _is_trig_ok(self, new_vars: dict[str, Any]) -> bool:
         if self.has_expression():
-            return await self.check_expression_vars(self.last_new_vars)
+            return await self.check_expression_vars(new_vars)
         return True
 
     def _on_task_done(self, task: asyncio.Task) -> None:
